@@ -10,6 +10,7 @@ import (
 	"encoding/json"
 	"errors"
 	"fmt"
+	"strings"
 	"io"
 	"sync"
 	"sync/atomic"
@@ -56,9 +57,23 @@ var scenarios = map[string]string{
 	"child-callback-loop":    `global (PCALL, PARK); PCALL(func() { PARK("cb"); for { } })`,
 	"child-after-callback":   `global (PCALL, PARK); PARK("cb"); PCALL(func() { for { } })`,
 	"unpooled-sequence":      `global CALL; for { CALL(func() { return 1 }) }`,
+	// the non-terminating code runs in a function called from inside try statements of the frames below it
+	"root-try-fn-loop":       `f := func() { for { } }; try { f() } catch e { return "caught" } finally { x := 1 }`,
+	"root-try-callback-loop": `global PARK; f := func() { try { PARK("cb"); for { } } finally { } }; try { try { f() } finally { } } catch e { return "caught" }`,
+	"child-in-try-loop":      `global PCALL; g := func() { try { for { } } catch e2 { return 2 } }; try { PCALL(func() { try { g() } finally { } }) } catch e { return 1 }`,
 	// ONE Invoker used for several Invoke calls: the first call returns, a later one never does
 	"unpooled-reuse-loop": `global CALLN; n := 0; CALLN(func() { n++; if n > 1 { for { } }; return n })`,
 	"pooled-reuse-loop":   `global PCALLN; n := 0; PCALLN(func() { n++; if n > 2 { for { } }; return n })`,
+}
+
+// follow-up scripts run on the aborted VM, one after another: a value through call + try/finally, an error
+// thrown at top level, an error escaping from a called function, a caught error.
+var followups = []string{
+	`f := func(a) { return a + 2 }; try { return f(40) } finally { }`,
+	`throw error("boom")`,
+	`f := func(a) { return a / 0 }; x := f(1); return x`,
+	`f := func() { throw "inner" }; try { f() } catch e { return "caught " + string(e) }; return "no"`,
+	`return [1, 2][5]`,
 }
 
 var scenarioNames = func() []string {
@@ -395,23 +410,45 @@ func runSchedule(s schedule) outcome {
 		if err != nil || ret != ugo.Int(42) {
 			out.followup = fmt.Sprintf("Eval follow-up returned %v, %v", ret, err)
 		}
-	} else {
-		fb, err := ugo.Compile([]byte(`f := func(a) { return a + 2 }; try { return f(40) } finally { }`), ugo.CompilerOptions{})
-		if err != nil {
-			panic(err)
-		}
-		ch := make(chan struct{})
-		var ret ugo.Object
-		var rerr error
-		go func() { defer close(ch); ret, rerr = vm.SetBytecode(fb).Run(nil) }()
-		select {
-		case <-ch:
-			if rerr != nil || ret != ugo.Int(42) {
-				out.followup = fmt.Sprintf("follow-up script on the aborted VM returned %v, %v", ret, rerr)
+		if out.followup == "" {
+			// an error at top level must come back as an error (no handler of the aborted run may catch it)
+			ret, _, err = evl.Run(context.Background(), []byte(`y := x + 1; throw error("boom" + string(y))`))
+			if err == nil || !strings.Contains(err.Error(), "boom41") {
+				out.followup = fmt.Sprintf("Eval follow-up `throw` returned %v, %v", ret, err)
 			}
-		case <-time.After(waitBudget):
-			out.followup = "follow-up script on the aborted VM did not return"
-			vm.Abort()
+		}
+	} else {
+		// each follow-up script runs on the aborted VM and, for the expectation, on a fresh VM
+		for _, src := range followups {
+			fb, err := ugo.Compile([]byte(src), ugo.CompilerOptions{})
+			if err != nil {
+				panic(err)
+			}
+			wantRet, wantErr := ugo.NewVM(fb).Run(nil)
+			ch := make(chan struct{})
+			var ret ugo.Object
+			var rerr error
+			go func() {
+				defer close(ch)
+				defer func() {
+					if p := recover(); p != nil {
+						rerr = fmt.Errorf("Go panic in the follow-up run: %v", p)
+					}
+				}()
+				ret, rerr = vm.SetBytecode(fb).Run(nil)
+			}()
+			select {
+			case <-ch:
+				if fmt.Sprint(rerr) != fmt.Sprint(wantErr) || fmt.Sprint(ret) != fmt.Sprint(wantRet) {
+					out.followup = fmt.Sprintf("follow-up script %q on the aborted VM returned (%v, %v), a fresh VM returns (%v, %v)", src, ret, rerr, wantRet, wantErr)
+				}
+			case <-time.After(waitBudget):
+				out.followup = fmt.Sprintf("follow-up script %q on the aborted VM did not return", src)
+				vm.Abort()
+			}
+			if out.followup != "" {
+				break
+			}
 		}
 	}
 	return out
